@@ -197,12 +197,14 @@ def gen_classic_grammar(r, with_transl=True, err=False):
     return None
 
 
-def gen_structured_grammar(r, with_transl=True):
+def gen_structured_grammar(r, with_transl=True, kind=None):
     """grammar families whose analysis / forest has a particular structure that random rules
     rarely produce"""
     names = iter('pqrstuvwxyz' * 6)
-    kind = r.choice(['follow-chain', 'follow-chain', 'shared-alts', 'shared-alts', 'first-chain', 'nullable-prefix', 'nullable-prefix',
-                     'stmt-list', 'stmt-list', 'twice', 'twice', 'recov-race', 'recov-race'])
+    if kind == 'err-alts':
+        return gen_err_alts(r)
+    kind = kind or r.choice(['follow-chain', 'follow-chain', 'shared-alts', 'shared-alts', 'first-chain', 'nullable-prefix', 'nullable-prefix',
+                     'stmt-list', 'stmt-list', 'twice', 'twice', 'recov-race', 'recov-race', 'core-share', 'core-share', 'recov-nest', 'recov-nest', 'passthru-split', 'passthru-split', 'nullable-tail', 'nullable-tail'])
     inputs_fn = None
     tn = ['a', 'b', 'c', 'd', 'e']
     terms = gen_terms(r, 5)
@@ -234,6 +236,10 @@ def gen_structured_grammar(r, with_transl=True):
         if r.random() < 0.3: rules += [('M', ['N', c2, c2]), ('N', [c1])]
         if r.random() < 0.3: rules[1] = ('L', ['L', 'E', sep])
         if r.random() < 0.3: rules.append(('E', ['error']))
+        if r.random() < 0.4:
+            # the shared constituent ends in a nullable nonterminal: a start situation with the dot
+            # before it completes too (empty tail), so its origin set matters for a cached goto set
+            rules[5] = ('M', [c1, c2, 'B']); rules += [('B', []), ('B', [z])]
         stm = [rh for l, rh in rules if l == 'E' and rh != ['error']]
         mid = [rh for l, rh in rules if l == 'M']
         def expand(rh, r):
@@ -241,6 +247,7 @@ def gen_structured_grammar(r, with_transl=True):
             for y in rh:
                 if y == 'M': out += expand(r.choice(mid), r)
                 elif y == 'N': out.append(c1)
+                elif y == 'B': out += r.choice([[], [], [z]])
                 else: out.append(y)
             return out
         def inputs_fn(r, tn):
@@ -263,6 +270,83 @@ def gen_structured_grammar(r, with_transl=True):
             t = list(base)
             if r.random() < 0.3: t = t + t if rules[0][1][-1] == 'S' else t
             return mutate(r, t, tn) if r.random() < 0.25 else t
+    elif kind == 'recov-nest':
+        # nested `error` contexts behind the error token, far from the start of the input: the
+        # nearest one recovers early but expensively (forward skipping), one further back is
+        # cheaper, set 0 is the most expensive; the search must try every pushed state
+        terms = gen_terms(r, 8)
+        hh, t0, t1, t2, u0, u1, u2, d = [n for n, _ in terms]
+        depth = r.randint(2, 3); npre = r.randint(0, 5)
+        ts = [t0, t1, t2][:depth]; us = [u0, u1, u2][:depth]; ks = [r.randint(1, 3) for _ in range(depth)]
+        rules = [('S', [hh] * npre + ['L0'])]
+        for i in range(depth):
+            inner = 'L%d' % (i + 1) if i + 1 < depth else 'D'
+            rules += [('L%d' % i, [ts[i], inner, us[i]]), ('L%d' % i, [ts[i], 'error'] + [us[i]] * ks[i])]
+        rules.append(('D', [d]))
+        if r.random() < 0.3: rules.append(('D', []))
+        def inputs_fn(r, tn):
+            t = [hh] * npre + ts[:r.randint(1, depth)]
+            if r.random() < 0.3: t.append(d)
+            for _ in range(r.randint(1, 3)):
+                i = r.randrange(depth); t += [us[i]] * r.choice([ks[i], ks[i], 1, ks[i] + 1])
+            return t[:16]
+    elif kind == 'passthru-split':
+        # an abstract node whose child at index >= 1 is a pass-through nonterminal (`P : E # 0`)
+        # derived by an abstract-node rule with a split ambiguity (`E : E + E`): the copies made
+        # for other origins must land in the right slot of the node above the pass-through rule
+        terms = gen_terms(r, 5)
+        x, a, plus, y, q = [n for n, _ in terms]
+        npass = r.randint(1, 2)
+        chain = ['P%d' % i for i in range(npass)] + ['E']
+        kids = r.choice([['X', 'P0'], ['X', 'P0'], ['X', 'X', 'P0'], ['X', 'P0', 'Y'], ['P0', 'X', 'P0']])
+        rules = [('S', 's', r.choice([0, 1]), kids, list(range(len(kids)))),
+                 ('X', 'big', r.choice([0, 1, 5, 10]), [x], [0]), ('Y', None, 0, [y], [0]), ('Y', None, 0, [], None)]
+        for u, v in zip(chain, chain[1:]): rules.append((u, None, 0, [v], [0]))
+        rules += [('E', 'plus', r.choice([0, 1, 2]), ['E', plus, 'E'], r.choice([[0, 2], [0, 2], [2, 0], [0, 1, 2]])), ('E', None, 0, [a], [0])]
+        if r.random() < 0.3: rules.append(('E', 'neg', r.choice([0, 1]), [q, 'E'], [1]))
+        if r.random() < 0.3: rules.append(('X', 'big2', r.choice([0, 3]), [x, x], [0, 1]))
+        used = set(sy for _, _, _, rh, _ in rules for sy in rh) | {'S'}
+        rules = [rl for rl in rules if rl[0] in used]
+        st = r.random() < 0.6
+        if py_check(terms, rules, st) != 0: return None
+        g = Grammar(terms, rules, st)
+        def pt_inputs(r, tn, kids=kids):
+            t = []
+            for kname in kids:
+                if kname == 'X': t += [x]
+                elif kname == 'Y': t += r.choice([[y], []])
+                else:
+                    n = r.randint(1, 4); e = [a]
+                    for _ in range(n - 1): e += [plus, a]
+                    t += e
+            return mutate(r, t, tn) if r.random() < 0.1 else t
+        g.inputs_fn = pt_inputs
+        return g
+    elif kind == 'core-share':
+        # one set core (same start situations in the same order) reached with different distance
+        # vectors: `A : X . E F b` and `A : X E . F b` (E, F nullable) stand in one set first with
+        # equal origins, later as two instances of A with different origins; the non-start part
+        # of the core (derived situations with their parents) is computed once and shared
+        terms = gen_terms(r, 8)
+        k, x, gg, a, b, z, f, h = [n for n, _ in terms]
+        kalts = [[k], [k, x, gg], [a, b], [b, x, gg]]
+        if r.random() < 0.3: kalts.append([h])
+        rules = [('S', ['A', 'R']), ('R', ['A']), ('R', [a, 'A', z]), ('A', ['X', 'E', 'F', b]), ('X', ['K', x])] + \
+                [('K', al) for al in kalts] + [('E', []), ('E', ['G', x]), ('G', [gg]), ('F', []), ('F', [f])]
+        if r.random() < 0.3: rules[3] = ('A', ['X', 'E', 'F', 'F', b])
+        if r.random() < 0.3: rules.append(('R', ['R', h]))
+        if r.random() < 0.3: rules[0] = ('S', ['A', 'R', 'R'])
+        def a_form(r, crit=None):
+            ka = kalts[crit] if crit is not None else r.choice(kalts)
+            e = [gg, x] if (crit == 2 or (crit is None and r.random() < 0.5)) else []
+            ff = [f] if (crit is None and r.random() < 0.3) else []
+            return ka + [x] + e + ff + [b]
+        def inputs_fn(r, tn):
+            crit = r.random() < 0.5
+            t = a_form(r, 1 if crit else None)
+            for _ in range(2 if rules[0][1] == ['A', 'R', 'R'] else 1):
+                t += a_form(r, 2 if crit else None) if r.random() < 0.6 else [a] + a_form(r) + [z]
+            return mutate(r, t, tn) if r.random() < 0.15 else t
     elif kind == 'twice':
         # the same constituent occurs twice in one sentence, predicted from different contexts:
         # the second occurrence must get the completions of its own context
@@ -275,6 +359,22 @@ def gen_structured_grammar(r, with_transl=True):
         if r.random() < 0.3: rules.append(('B', [a]))
         if r.random() < 0.3: rules += [('Q', ['Z', e]), ('Z', ['B', c])]
         if r.random() < 0.3: rules[1:1] = [('S', ['S', e, 'P'])]
+    elif kind == 'nullable-tail':
+        # two derivations that use the same rule `A : a N` with different origins: the tail N is
+        # empty in one (the situation is a non-start one, derived through the nullable tail) and
+        # non-empty in the other (a start situation)
+        a, b = tn[0], tn[1]
+        rules = [('S', ['B', 'A']), ('B', [a]), ('B', [a, a]), ('A', [a, 'N']), ('N', []), ('N', [a])]
+        if r.random() < 0.3: rules[0] = ('S', ['B', 'A', b])
+        if r.random() < 0.3: rules[3] = ('A', [a, 'N', 'N'])
+        if r.random() < 0.3: rules.append(('B', [a, a, a]))
+        if r.random() < 0.3: rules.append(('N', ['M'])); rules.append(('M', []))
+        if r.random() < 0.3: rules.append(('A', ['B', 'N']))
+        if r.random() < 0.2: rules[0] = ('S', ['B', 'A', 'A'])
+        def inputs_fn(r, tn, a=a, b=b, rules=rules):
+            t = [a] * r.randint(2, 6)
+            if b in rules[0][1]: t.append(b)
+            return t
     elif kind == 'nullable-prefix':
         # a rule with a nullable prefix before a nonterminal, reached twice in one set: as a
         # situation with an older origin and as a freshly predicted one (`A : N . C`)
@@ -315,9 +415,42 @@ def gen_structured_grammar(r, with_transl=True):
     return g
 
 
+def gen_err_alts(r):
+    """a broken statement can be translated in several ways of different cost, with and without
+    the error node as a child: under the cost flag the pruning decides whether the (single)
+    error node stays reachable"""
+    terms = gen_terms(r, 4)
+    a, semi, b, c = [n for n, _ in terms]
+    cs = lambda: r.choice([0, 1, 1, 2, 5])
+    tr_err = lambda: r.choice([[0], [0], [], [NIL]])
+    rules = [('S', 'prog', cs(), ['L'], [0]), ('L', 'list', cs(), ['L', 'X', semi], [0, 1]), ('L', None, 0, [], None),
+             ('X', None, 0, [a], [0]), ('X', 'bad', cs(), ['error'], tr_err()), ('X', None, 0, ['Y'], [0]),
+             ('Y', 'skipped', cs(), ['error'], tr_err())]
+    if r.random() < 0.4: rules.append(('X', 'pair', cs(), [a, b], [0, 1]))
+    if r.random() < 0.3: rules.append(('X', 'tail', cs(), ['error', c], r.choice([[0, 1], [1], []])))
+    if r.random() < 0.3: rules.append(('Y', 'other', cs(), ['error', 'Z'], r.choice([[0], [1], [0, 1]]))); rules.append(('Z', None, 0, [], None))
+    if r.random() < 0.3: rules[1] = ('L', 'list', rules[1][2], ['X', semi, 'L'], [0, 2])
+    if py_check(terms, rules, True) != 0: return None
+    g = Grammar(terms, rules, True)
+    tn = [n for n, _ in terms]
+    def inputs_fn(r, tn=tn):
+        toks = []
+        for _ in range(r.randint(1, 4)):
+            toks += r.choice([[a], [a], [b], [c, c], [], [a, b], [b, a]]) + [semi]
+        return toks
+    g.inputs_fn = lambda r, tn: inputs_fn(r)
+    return g
+
+
 def gen_grammar(r, nnt=None, nt_=None, err_prob=0.25, maxrules=3, strict=None, with_transl=True, tries=60):
     if nnt is None and nt_ is None and strict is None:
         x = r.random()
+        if err_prob >= 0.3 and with_transl and r.random() < 0.08:
+            g = gen_err_alts(r)
+            if g is not None: return g
+        if err_prob >= 0.5 and r.random() < 0.12:
+            g = gen_structured_grammar(r, with_transl, kind=r.choice(['recov-nest', 'recov-nest', 'recov-race']))
+            if g is not None: return g
         if err_prob >= 0.5 and r.random() < 0.15:
             g = gen_classic_grammar(r, with_transl, err=True)
             if g is not None: return g
@@ -516,7 +649,7 @@ def cfg_sweep(r, focus):
         return [dict(la=la, one=1, cost=0, rec=0) for la in r.sample([0, 1, 2], 2)] + \
                [dict(la=r.choice([0, 1, 2]), one=1, cost=0, rec=1, match=m) for m in r.sample([1, 2, 3, 4, 5], 2)]
     if focus == 'C13':
-        return [dict(la=r.choice([0, 1, 2]), one=r.choice([0, 1]), cost=r.choice([0, 1]), rec=r.choice([0, 1]), free=r.choice(['user', 'user', 'null']),
+        return [dict(la=r.choice([0, 1, 2]), one=r.choice([0, 1]), cost=r.choice([0, 1]), rec=r.choice([0, 1, 1]), free=r.choice(['user', 'user', 'null']),
                      alloc=r.choice(['user', 'user', 'user', 'null']))]
     if focus in ('C07', 'C08'):
         return [dict(la=r.choice([0, 1, 2]), one=r.choice([0, 1]), cost=r.choice([0, 0, 0, 1]), rec=1, match=m)
@@ -532,7 +665,7 @@ def gen_parse_cases(seed, count, focus='C01', maxlen=7, inputs_per=3):
     r = random.Random(seed)
     cases = []
     for i in range(count):
-        g = gen_grammar(r, err_prob=0.6 if focus in ('C06', 'C07', 'C08') else 0.35 if focus == 'C09' else 0.15)
+        g = gen_grammar(r, err_prob=0.6 if focus in ('C06', 'C07', 'C08') else 0.35 if focus in ('C09', 'C13') else 0.15)
         ins = gen_inputs(r, g, inputs_per, maxlen)
         # every input gets its own sweep
         lines = None
@@ -542,8 +675,12 @@ def gen_parse_cases(seed, count, focus='C01', maxlen=7, inputs_per=3):
         def op(s):
             nonlocal n
             n += 1; c.append('op %d %s' % (n, s))
-        op('create 0'); op('def 0 0')
+        op('create 0')
         cur = dict(la=1, one=1, cost=0, rec=1, match=3, debug=0)
+        if r.random() < 0.2:
+            # the lookahead level in force when the grammar is defined is not the one of the parses
+            cur['la'] = r.choice([0, 0, 2]); op('set 0 la %d' % cur['la'])
+        op('def 0 0')
         for toks in ins:
             codes = ' '.join(str(g.code(t)) for t in toks)
             for cfg in cfg_sweep(r, focus):
@@ -597,6 +734,14 @@ def gen_def_grammar(r):
                 tr.append(NIL if z < 0.15 else r.randint(0, max(0, len(rhs))) if z < 0.25 else r.randint(0, max(0, len(rhs) - 1)))
             if anode is None and len(tr) > 1 and r.random() < 0.8: tr = tr[:1]
         rules.append((lhs, anode, cost, rhs, tr))
+    if r.random() < 0.15:
+        # names that only begin with (or are a prefix of) a reserved name are ordinary names
+        pool = ['$Sum', '$Stmt', '$eofmark', '$eo', '$', 'errors', 'erro', 'Error', '$s', '$EOF', '$S1', 'error_']
+        ren = {}
+        for old in r.sample(['S', 'A', 'B', 'a', 'b', 'c'], r.randint(1, 3)): ren[old] = r.choice(pool)
+        if len(set(ren.values())) == len(ren):
+            terms = [(ren.get(n, n), c) for n, c in terms]
+            rules = [(ren.get(l, l), an, co, [ren.get(x, x) for x in rh], tr) for l, an, co, rh, tr in rules]
     return Grammar(terms, rules, r.random() < 0.5)
 
 
@@ -931,6 +1076,14 @@ def mutate_text(r, text):
     return bytes(x for x in b if x != 0)
 
 
+INVALID_BYTES = b"@$%,?!&~`^[]{}<>\\\"+._/"
+def inject_invalid(r, text):
+    """an otherwise well-formed description with one character outside the description alphabet"""
+    b = bytearray(text.encode('latin1'))
+    b.insert(r.randint(0, len(b)), r.choice(INVALID_BYTES))
+    return bytes(b)
+
+
 _YACC = None
 def yacc_sentence(r):
     """a random sentence (as description text) of the yacc grammar CURRENTLY in /repo/src/sgramm.y,
@@ -985,8 +1138,10 @@ def gen_descr_cases(seed, count):
         mode = r.random()
         if mode < 0.6:
             data = text.encode('latin1')
-        elif mode < 0.8:
+        elif mode < 0.72:
             data = mutate_text(r, text)
+        elif mode < 0.8:
+            data = inject_invalid(r, text)
         elif mode < 0.9:
             data = yacc_sentence(r)
         else:
@@ -1001,7 +1156,8 @@ def gen_descr_cases(seed, count):
             # of it may leak into the next description (static state of the description parser)
             o2, _, _ = gen_descr_ast(r)
             t2 = render_descr(r, o2)
-            bad = t2[:r.randint(0, len(t2))].encode('latin1') if r.random() < 0.6 else mutate_text(r, t2)
+            y = r.random()
+            bad = t2[:r.randint(0, len(t2))].encode('latin1') if y < 0.4 else mutate_text(r, t2) if y < 0.7 else inject_invalid(r, t2)
             c.append('text 1 %s' % bad.hex())
             op('create 2'); op('descr 2 1 %d' % r.randint(0, 1)); op('err 2')
             if r.random() < 0.5: op('free 2')
